@@ -46,7 +46,11 @@ func (n *MixedValueNode) AddConstraint(c constraint.Constraint) {
 			panic(errors.Format(errors.ErrDuplicateRule, t.Type().String()))
 		}
 		n.addTypeConstraint(t)
-		n.types = []string{t.Bytes().String()}
+		// The types of an or-shortcut (@foo | @bar) are kept by its types
+		// list, the redundant rule {type: "mixed"} should not hide them.
+		if _, ok := n.constraints.Get(constraint.TypesListConstraintType); !ok {
+			n.types = []string{t.Bytes().String()}
+		}
 
 	case *constraint.Or:
 		n.addOrConstraint(t)
